@@ -21,8 +21,16 @@ RULE = ('(a) primitive cases: sample sequence (unsorted, duplicate times with di
         'regex / fnmatch metacharacter, 0-3 stars, 1-4 entries in every dict order + kwargs: SensorCache._get_props '
         'against model, Coq precedence spec and a split-based statement of the documented whole-name rule; (e) the same '
         'name/key families driven through SensorCache.get on 1-3 sensors whose names extend / are extended by each '
-        'other. A case is non-trivial when at '
-        'least one numeric extraction with >= 2 usable samples (or a dummy fill) is compared; distinct by canonical JSON')
+        'other; (f) built-in virtual sensors: the VIRTUAL_SENSORS registry of each format module (v1-v4) on a SensorCache '
+        '/ ConcatenatedSensorCache of 1-3 parts whose dump grids are irregular (dropped dumps, late dumps, declared dump '
+        'period != spacing, capture restarts, gaps between parts; 1-8 dumps per part on a 1/4 s grid over 20 days), 1-2 '
+        'antennas pointing within 2 deg of radec / azel / Sun targets (some dumps over the top, el > 90 deg), target '
+        'changes, histories of get / cache[name] / _set_keep over mjd, lst, az, el, ra, dec, parangle, target_x/y (5 '
+        'projections x azel/radec), u, v, w: every returned value against the per-dump documented function (one scalar '
+        'katpoint call per dump) placed by the Coq model; (g) the public properties d.mjd ... d.w of HDF5 v3 data sets '
+        '(single and concatenated) with irregular recorded timestamps under dump selections. A case is non-trivial when at '
+        'least one numeric extraction with >= 2 usable samples (or a dummy fill, or a non-empty virtual sensor) is compared; '
+        'distinct by canonical JSON')
 ASSUMPTIONS = ['float64 exactness domain: times on a 1/4 s grid (epoch 0 or 1.5e9), node gaps <= 24 grid steps, values '
                'integer multiples of lcm(1..24) below 2^44 so that np.interp is exact and equality is compared',
                'categorical conversion itself is C10: only the decision categorical/numeric and the dummy value are compared',
@@ -30,6 +38,15 @@ ASSUMPTIONS = ['float64 exactness domain: times on a 1/4 s grid (epoch 0 or 1.5e
                'the katpoint coordinate functions are not verified',
                'keep is a boolean mask of the length of the timestamps (what DataSet passes)',
                'parts of a concatenated cache are built with equal property maps (independent dict objects)',
+               'built-in virtual sensors: floats are compared with the documented per-dump value within an absolute tolerance '
+               '(1e-9 days for mjd, also against the exact t/86400+40587 of the model; 1e-9 rad for lst/az/el/ra/dec/parangle '
+               'and projected coordinates; 1e-6 m for u/v/w; 1e-7 deg / 1e-8 h for the DataSet properties) - the smallest '
+               'error a wrong dump can make on the generated grids is a quarter second (2.9e-6 days, 1.8e-5 rad of LST); '
+               'katpoint/ephem themselves are trusted (the expected values come from scalar katpoint calls)',
+               'np.row_stack (removed in NumPy 2, still called by katpoint 0.10.2 Target.uvw_basis) is aliased to np.vstack '
+               'while the built-in virtual sensors run, otherwise u/v/w cannot be evaluated at all and are skipped',
+               'the v4-only virtual sensors Correlator/Inputs/{inp}/applied_delay|applied_phase|applied_gain produce sensor '
+               'getters / categorical data that go through the ordinary extraction path and are not exercised',
                'sensor names are non-empty printable ASCII without "*" and without a newline (a name containing "*" is '
                'its own wildcard key; "$" also matches before a trailing newline)']
 
@@ -838,6 +855,565 @@ def scripted_wild():
     return out
 
 
+# ---------------------------------------------------------------------------------------------- built-in virtual sensors
+# Every virtual sensor the DataSet classes register (dataset.DEFAULT_VIRTUAL_SENSORS + the az/el of each format module)
+# must be the documented function of ONE dump: value[i] = f(timestamps[i], sources[i]).  The registries of the four
+# format modules are put on SensorCache / ConcatenatedSensorCache objects with IRREGULAR dump grids (dropped dumps,
+# late dumps, a declared dump period that is not the spacing, capture restarts, concatenations with gaps); the
+# expected value of every dump is computed here with ONE scalar katpoint call per dump, handed to the Coq model as
+# the finite graph of the (uninterpreted) per-dump function, and the model (wire_122: the cache state machine with
+# vf = vf_pw) says what every access of the history returns under the selections.
+V_ANTS = {'m000': 'm000, -30:42:39.8, 21:26:38.0, 1035.0, 13.5, -8.258 -207.289 1.2075',
+          'm001': 'm001, -30:42:39.8, 21:26:38.0, 1035.0, 13.5, 1.126 -171.761 1.0605',
+          'm063': 'm063, -30:42:39.8, 21:26:38.0, 1035.0, 13.5, -3419.5845 -1840.48 16.3825',
+          'array': 'array, -30:42:39.8, 21:26:38.0, 1035.0, 0.0'}
+V_TARGETS = ['PKS1934-63, radec, 19:39:25.03, -63:42:45.7', 'az20el88, azel, 20, 88', 'Sun, special',
+             'J0408-6545, radec, 04:08:20.38, -65:45:09.1', 'azm70el25, azel, -70, 25', 'PicA, radec, 05:19:49.7, -45:46:44']
+V_FMT = {'v4': ('katdal.visdatav4', '{ant}_pos_actual_scan_azim', '{ant}_pos_actual_scan_elev'),
+         'v3': ('katdal.h5datav3', 'Antennas/{ant}/pos_actual_scan_azim', 'Antennas/{ant}/pos_actual_scan_elev'),
+         'v2': ('katdal.h5datav2', 'Antennas/{ant}/pos.actual-scan-azim', 'Antennas/{ant}/pos.actual-scan-elev'),
+         'v1': ('katdal.h5datav1', 'Antennas/{ant}/pos_actual_scan_azim', 'Antennas/{ant}/pos_actual_scan_elev')}
+# absolute tolerances of the float comparison (the documented functions go through ephem / libm; the smallest error a
+# wrong dump can make on these grids is a quarter second = 2.9e-6 days = 1.8e-5 rad of sidereal angle)
+V_TOL = {'mjd': 1e-9, 'u': 1e-6, 'v': 1e-6, 'w': 1e-6}
+V_TOL_DEFAULT = 1e-9
+_vobj = {}
+
+
+def v_ant(name):
+    import katpoint
+    if ('ant', name) not in _vobj:
+        _vobj[('ant', name)] = katpoint.Antenna(V_ANTS[name])
+    return _vobj[('ant', name)]
+
+
+def v_target(i):
+    import katpoint
+    if ('tgt', i) not in _vobj:
+        _vobj[('tgt', i)] = katpoint.Target(V_TARGETS[i])
+    return _vobj[('tgt', i)]
+
+
+class row_stack_shim:
+    """katpoint 0.10.2 Target.uvw_basis calls np.row_stack, removed in NumPy 2: alias it to np.vstack while the
+    built-in virtual sensors are exercised (otherwise u/v/w cannot be computed at all and are skipped)"""
+
+    def __enter__(self):
+        self.added = not hasattr(np, 'row_stack')
+        if self.added:
+            np.row_stack = np.vstack
+
+    def __exit__(self, *a):
+        if self.added:
+            del np.row_stack
+
+
+def v_base(name):
+    """class of a built-in virtual sensor name: mjd, lst, az, el, ra, dec, parangle, target_x, target_y, u, v, w"""
+    last = name.split('/')[-1]
+    return 'target_' + last[7] if last.startswith('target_') else last
+
+
+def v_dumps(case):
+    """global list of (part index, local dump index, grid position)"""
+    return [(pi, i, k) for pi, part in enumerate(case['parts']) for i, k in enumerate(part['grid'])]
+
+
+def v_target_at(part, i):
+    cur = part['targets'][0][0]
+    for (tidx, start) in part['targets']:
+        if start <= i:
+            cur = tidx
+    return cur
+
+
+def v_sensors(case):
+    """the virtual sensors of the case as the model sees them: produced names, numeric sources, function id"""
+    azp, elp = V_FMT[case['fmt']][1:]
+    out = [dict(names=['Timestamps/mjd'], srcs=[], fid=0)]
+    fid = 0
+    for a in case['ants']:
+        g = 'Antennas/%s/' % a
+        groups = [([g + 'lst'], []), ([g + 'az'], [azp.format(ant=a)]), ([g + 'el'], [elp.format(ant=a)]),
+                  ([g + 'ra', g + 'dec'], [g + 'az', g + 'el']), ([g + 'parangle'], [g + 'az', g + 'el'])]
+        for (proj, csys) in case['proj']:
+            groups.append(([g + 'target_x_%s_%s' % (proj, csys), g + 'target_y_%s_%s' % (proj, csys)],
+                           [g + 'az', g + 'el'] if csys == 'azel' else [g + 'ra', g + 'dec']))
+        groups += [([g + c], []) for c in 'uvw']
+        for names, srcs in groups:
+            fid += 1
+            out.append(dict(names=names, srcs=srcs, fid=fid))
+    return out
+
+
+def v_fix(lon, lat):
+    """over-the-top elevations are brought back into range before projecting (documented in _calc_target_coords)"""
+    import math
+    return (lon + math.pi, math.pi - lat) if (lat > math.pi / 2.0 and lat < math.pi) else (lon, lat)
+
+
+def v_expected(case):
+    """name -> list over ALL dumps of the documented value of that dump (float), each from one scalar katpoint call
+    on (timestamps[i], sources[i]); None for a name katpoint cannot evaluate (out of domain)"""
+    import math
+
+    import katpoint
+    e = case['epoch']
+    exp = {}
+
+    def put(name, fn):
+        vals = []
+        for (pi, i, k) in v_dumps(case):
+            try:
+                vals.append(float(fn(case['parts'][pi], i, float(tval(e, k)))))
+            except Exception:
+                exp[name] = None
+                return
+        exp[name] = vals
+    put('Timestamps/mjd', lambda part, i, t: katpoint.Timestamp(t).to_mjd())
+    arr = v_ant('array')
+    for a in case['ants']:
+        ant = v_ant(a)
+        g = 'Antennas/%s/' % a
+        az = lambda part, i: math.radians(part['az'][a][i] / 64.0)
+        el = lambda part, i: math.radians(part['el'][a][i] / 64.0)
+        pointing = lambda part, i: katpoint.construct_azel_target(az(part, i), el(part, i))
+        tgt = lambda part, i: v_target(v_target_at(part, i))
+        put(g + 'lst', lambda part, i, t: ant.local_sidereal_time(t))
+        put(g + 'az', lambda part, i, t: az(part, i))
+        put(g + 'el', lambda part, i, t: el(part, i))
+        put(g + 'ra', lambda part, i, t: pointing(part, i).radec(t, ant)[0])
+        put(g + 'dec', lambda part, i, t: pointing(part, i).radec(t, ant)[1])
+        put(g + 'parangle', lambda part, i, t: pointing(part, i).parallactic_angle(t, ant))
+        for (proj, csys) in case['proj']:
+            def xy(part, i, t, which):
+                lon, lat = (az(part, i), el(part, i)) if csys == 'azel' else pointing(part, i).radec(t, ant)
+                lon, lat = v_fix(float(lon), float(lat))
+                return tgt(part, i).sphere_to_plane(lon, lat, t, ant, proj, csys)[which]
+            put(g + 'target_x_%s_%s' % (proj, csys), lambda part, i, t: xy(part, i, t, 0))
+            put(g + 'target_y_%s_%s' % (proj, csys), lambda part, i, t: xy(part, i, t, 1))
+        for n, c in enumerate('uvw'):
+            put(g + c, lambda part, i, t: tgt(part, i).uvw(ant, t, arr)[n])
+    return exp
+
+
+def v_grid_class(case):
+    order = ['regular', 'period_mismatch', 'gap', 'late']
+    worst = 0
+    for part in case['parts']:
+        d = [b - a for a, b in zip(part['grid'], part['grid'][1:])]
+        p = part['period']
+        if all(x == p for x in d):
+            cls = 0
+        elif len(set(d)) == 1:
+            cls = 1
+        elif all(x % p == 0 for x in d):
+            cls = 2
+        else:
+            cls = 3
+        worst = max(worst, cls)
+    return ('concat+' if len(case['parts']) > 1 else '') + order[worst]
+
+
+def v_part_cache_desc(case, pi):
+    """harness description of one part (same shape as the other cache histories): real az/el sensors sampled AT the
+    dumps (np.interp is exact at a node), values multiples of 1/64 degree"""
+    part = case['parts'][pi]
+    azp, elp = V_FMT[case['fmt']][1:]
+    getters, raw = [], []
+    for a in case['ants']:
+        for which, pat in (('az', azp), ('el', elp)):
+            raw.append((pat.format(ant=a), len(getters)))
+            getters.append(dict(kind=case['gkind'], dtype='float', status=False, swidth=7, ustatus=False,
+                                samples=[(k, Fraction(v, 64), '') for k, v in zip(part['grid'], part[which][a])]))
+    return dict(epoch=case['epoch'], getters=getters, raw=raw, ts=list(part['grid']), keep=list(part['keep']), props=[],
+                virt=v_sensors(case), gname=None)
+
+
+def v_build_part(impl, case, pi):
+    import importlib
+
+    from katdal.categorical import CategoricalData
+    from katdal.sensordata import SensorCache
+    part = case['parts'][pi]
+    c = v_part_cache_desc(case, pi)
+    e = case['epoch']
+    mod = importlib.import_module(V_FMT[case['fmt']][0])
+    raw = {n: impl.getter(c['getters'][gid], e, n) for (n, gid) in c['raw']}
+    ts = np.array([float(tval(e, k)) for k in part['grid']])
+    sc = SensorCache(raw, ts, part['period'] / 4.0, keep=np.array(part['keep'], dtype=bool), props={},
+                     virtual=mod.VIRTUAL_SENSORS)
+    T = len(ts)
+    for a in list(case['ants']) + ['array']:
+        sc['Antennas/%s/antenna' % a] = CategoricalData([v_ant(a)], [0, T])
+    events = [s for (_, s) in part['targets']] + [T]
+    sc['Observation/target'] = CategoricalData([v_target(t) for (t, _) in part['targets']], events)
+    return sc
+
+
+def v_close(got, want, tol):
+    if len(got) != len(want):
+        return False
+    for g, w in zip(got, want):
+        if (g is None) != (w is None):
+            return False
+        if g is not None and not abs(float(g) - float(w)) <= tol:
+            return False
+    return True
+
+
+def run_builtin(ctx, case):
+    """one history on a (concatenated) cache carrying the built-in virtual sensors of one format module"""
+    from katdal.concatdata import ConcatenatedSensorCache
+    ops = [tuple(o) for o in case['ops']]
+    with row_stack_shim():
+        exp = v_expected(case)
+        times = [tval(case['epoch'], k) for (_, _, k) in v_dumps(case)]
+        # the graph of every per-dump function: (sensor, dump) -> an integer standing for "the documented value of this
+        # sensor at this dump" (the wire carries native integers only; the function is uninterpreted in the model anyway)
+        table, code_name = [], {}
+        for v in v_sensors(case):
+            if v['fid'] == 0:
+                continue
+            for k, n in enumerate(v['names']):
+                code = (v['fid'] * 4 + k) * 4096
+                code_name[code] = n
+                table.append([v['fid'], k, [[wq(t), wq(code + g)] for g, t in enumerate(times)]])
+
+        def decode(name, want):
+            """model values -> expected floats: the mjd and the real sensors are exact rationals, the rest are codes"""
+            if name not in exp or name == 'Timestamps/mjd':
+                return [None if x is None else float(x) for x in want]
+            out = []
+            for x in want:
+                code, g = (int(x) // 4096) * 4096, int(x) % 4096
+                out.append(exp[code_name[code]][g] if code_name.get(code) == name else float('inf'))
+            return out
+        descs = [v_part_cache_desc(case, pi) for pi in range(len(case['parts']))]
+        concat = len(descs) > 1
+        wops = [w_op(o if o[0] != 'get' else (o[0], o[1], o[2], True, {})) for o in ops]
+        if concat:
+            mo = ctx.model([[122, [3, table, [w_cache(c) for c in descs], [], wops]]])[0]
+        else:
+            mo = ctx.model([[122, [1, table, w_cache(descs[0]), wops]]])[0]
+        mres = mo[0]
+        gcls = v_grid_class(case)
+        impl = Impl()
+        nontrivial = False
+        try:
+            parts = [v_build_part(impl, case, pi) for pi in range(len(descs))]
+            if concat:
+                sc = ConcatenatedSensorCache(parts, keep=np.concatenate([np.array(p['keep'], dtype=bool)
+                                                                         for p in case['parts']]))
+            else:
+                sc = parts[0]
+            for i, o in enumerate(ops):
+                name = o[1] if o[0] in ('get', 'item') else None
+                if name is not None and name in exp and exp[name] is None:
+                    ctx.count('skipped:katpoint-cannot-evaluate')
+                    break
+                if o[0] == 'get':
+                    obs = observe(lambda: sc.get(o[1], select=bool(o[2])))
+                elif o[0] == 'item':
+                    obs = observe(lambda: sc[o[1]])
+                else:
+                    obs = apply_op(sc, [], o)
+                m = mres[i]
+                sym = None
+                if m[0] == 0:
+                    want = decode(name, [unq(x) for x in m[1]])
+                    if obs[0] == 'vals':
+                        base = v_base(name) if name in exp else 'source'
+                        tol = 0.0 if base == 'source' else V_TOL.get(base, V_TOL_DEFAULT)
+                        if not v_close(obs[1], want, tol):
+                            sym = 'length_differs' if len(obs[1]) != len(want) else 'values_differ'
+                    else:
+                        sym = 'raises_' + obs[1] if obs[0] == 'err' else 'kind_' + obs[0]
+                elif m[0] == 3 and m[1] in (0, 1):
+                    wanterr = {0: 'key', 1: 'value'}[m[1]]
+                    if not (obs[0] == 'err' and obs[1] == wanterr):
+                        sym = 'expected_%s_error' % wanterr
+                elif m[0] == 4:
+                    if obs[0] != 'ok':
+                        sym = 'op_failed'
+                else:
+                    ctx.count('skipped:model-out-of-domain')
+                    break
+                if sym:
+                    base = v_base(name) if name in exp else ('source' if name else 'none')
+                    fmt = ';fmt=' + case['fmt'] if base in ('az', 'el') else ''
+                    selected = o[0] == 'item' or (o[0] == 'get' and bool(o[2]))
+                    ctx.disagree('kind=builtin;sensor=%s%s;grid=%s;selected=%d;symptom=%s' % (base, fmt, gcls, selected, sym),
+                                 dict(case, failing_op=i), _j(obs), want if m[0] == 0 else m,
+                                 'built-in virtual sensor %r (op %d %r) is not the documented per-dump function of its '
+                                 'sources and the dump timestamps (expected values: one scalar katpoint call per dump; '
+                                 'tolerance %g)' % (name, i, o[:3], V_TOL.get(v_base(name), V_TOL_DEFAULT) if name else 0),
+                                 spec=None if name not in exp else exp[name])
+                    break
+                if m[0] == 0 and len(m[1]) > 0:
+                    nontrivial = True
+                    ctx.count('builtin_sensor=' + (v_base(name) if name in exp else 'source'))
+                ctx.count('vop=' + o[0])
+            else:
+                ctx.traces_validated += 1
+        finally:
+            impl.close()
+    ctx.count('builtin_grid=' + gcls)
+    ctx.count('builtin_fmt=' + case['fmt'])
+    return nontrivial
+
+
+def gen_vgrid(rng, start, p=None):
+    """an (irregular) dump grid in quarter seconds and the declared dump period"""
+    p = p or rng.choice([1, 2, 4, 8, 8, 16, 32])
+    n = rng.choice([1, 2, 3, 4, 5, 6, 7, 8])
+    mode = rng.choice(['regular', 'gap', 'gap', 'late', 'gap+late', 'mismatch', 'restart'])
+    pos = [start]
+    for _ in range(n - 1):
+        step = p
+        if 'gap' in mode and rng.random() < 0.4:
+            step = p * rng.randint(2, 6)                     # dropped dumps
+        if 'late' in mode and p > 1 and rng.random() < 0.4:
+            step += rng.randint(1, p - 1)                    # a dump that arrived late
+        if mode == 'restart' and rng.random() < 0.3:
+            step = p * rng.randint(3, 40) + rng.randint(0, p - 1)      # capture restarted
+        pos.append(pos[-1] + step)
+    period = p if mode != 'mismatch' else rng.choice([q for q in (1, 2, 3, 4, 8, 16, 32, 40) if q != p])
+    return pos, period
+
+
+def gen_builtin(rng):
+    import math
+    epoch = rng.choice([1500000000, 1234667890, 1400000000, 1600000000])
+    ants = rng.sample(['m000', 'm001', 'm063'], rng.choice([1, 1, 2]))
+    projs = rng.sample([('ARC', 'azel'), ('ARC', 'radec'), ('SIN', 'azel'), ('SIN', 'radec'), ('TAN', 'azel'),
+                        ('STG', 'radec'), ('CAR', 'azel')], rng.choice([1, 1, 2]))
+    case = dict(kind='builtin', fmt=rng.choice(['v4', 'v4', 'v3', 'v3', 'v2', 'v1']), epoch=epoch, ants=ants,
+                proj=[list(p) for p in projs], gkind=rng.choice(['simple', 'rec']), parts=[])
+    start = rng.randint(0, 4 * 86400 * 20)
+    over = rng.random() < 0.2
+    for _ in range(rng.choice([1, 1, 1, 2, 2, 3])):
+        grid, period = gen_vgrid(rng, start)
+        start = grid[-1] + period * rng.randint(1, 3) + rng.choice([0, 0, rng.randint(1, 4000)])
+        T = len(grid)
+        starts = sorted(rng.sample(range(1, T), min(T - 1, rng.choice([0, 0, 1, 2]))))
+        targets = [[rng.randrange(len(V_TARGETS)), s] for s in [0] + starts]
+        part = dict(grid=grid, period=period, keep=[rng.random() < 0.6 for _ in grid], targets=targets, az={}, el={})
+        for a in ants:
+            az, el = [], []
+            for i, k in enumerate(grid):
+                t = float(tval(epoch, k))
+                taz, tel = v_target(v_target_at(part, i)).azel(t, v_ant(a))
+                a64 = int(round(math.degrees(taz) * 64)) + rng.randint(-128, 128)
+                e64 = int(round(math.degrees(tel) * 64)) + rng.randint(-128, 128)
+                if over and 0 < e64 < 90 * 64 and rng.random() < 0.5:
+                    a64, e64 = a64 + 180 * 64, 180 * 64 - e64          # the same direction, "over the top"
+                az.append(a64)
+                el.append(e64)
+            part['az'][a], part['el'][a] = az, el
+        case['parts'].append(part)
+    names = [n for v in v_sensors(case) for n in v['names']]
+    total = sum(len(p['grid']) for p in case['parts'])
+    ops = []
+    for _ in range(rng.randint(3, 10)):
+        r = rng.random()
+        if r < 0.12:
+            ops.append(('setkeep', [rng.random() < 0.5 for _ in range(total)]))
+            continue
+        if rng.random() < 0.3:
+            nm = 'Timestamps/mjd'
+        elif rng.random() < 0.04:
+            nm = rng.choice(['Antennas/%s/bogus' % ants[0], 'Timestamps/lst', v_sensors(case)[2]['srcs'][0]])
+        else:
+            nm = rng.choice(names)
+        ops.append(('item', nm) if rng.random() < 0.45 else ('get', nm, rng.random() < 0.3))
+    case['ops'] = [list(o) for o in ops]
+    return case
+
+
+# the seeded change C12-4 as fixed cases: a grid that lost five dumps, and the same grid with a declared dump period that is
+# not its spacing; plus the over-the-top pointing read before and after the target coordinates (finding C12-F4)
+def scripted_builtin():
+    out = []
+    idx = list(range(0, 7)) + list(range(12, 18)) + list(range(20, 27))
+    for fmt, period in (('v4', 32), ('v3', 32), ('v1', 8)):
+        grid = [32 * i for i in idx]
+        part = dict(grid=grid, period=period, keep=[i % 4 != 0 for i in range(len(grid))], targets=[[0, 0], [2, 9]],
+                    az={'m000': [40 * 64 + 16 * i for i in range(len(grid))]},
+                    el={'m000': [50 * 64 - 8 * i for i in range(len(grid))]})
+        out.append(dict(kind='builtin', fmt=fmt, epoch=1234667890, ants=['m000'], proj=[['ARC', 'azel']], gkind='simple',
+                        parts=[part],
+                        ops=[['item', 'Timestamps/mjd'], ['get', 'Timestamps/mjd', False], ['item', 'Antennas/m000/lst'],
+                             ['get', 'Antennas/m000/ra', False], ['item', 'Antennas/m000/parangle'],
+                             ['item', 'Antennas/m000/target_x_ARC_azel'], ['item', 'Antennas/m000/u'],
+                             ['setkeep', [True] * len(grid)], ['item', 'Timestamps/mjd'], ['item', 'Antennas/m000/az']]))
+    out.append(WITNESS_F4)
+    return out
+
+
+WITNESS_F4 = dict(kind='builtin', fmt='v4', epoch=1500000000, ants=['m000'], proj=[['ARC', 'azel']], gkind='simple',
+                  parts=[dict(grid=[0, 32, 64, 160], period=32, keep=[True, True, False, True], targets=[[1, 0]],
+                              az={'m000': [20 * 64, 200 * 64, 21 * 64, 199 * 64]},
+                              el={'m000': [87 * 64, 93 * 64, 88 * 64, 91 * 64]})],
+                  ops=[['get', 'Antennas/m000/az', False], ['get', 'Antennas/m000/el', False],
+                       ['get', 'Antennas/m000/target_x_ARC_azel', False], ['get', 'Antennas/m000/az', False],
+                       ['item', 'Antennas/m000/el'], ['get', 'Antennas/m000/target_y_ARC_azel', False]])
+
+
+# ---------------------------------------------------------------------------------------------- public DataSet properties
+# The same statement at the user-facing end: d.mjd, d.lst, d.az, d.el, d.ra, d.dec, d.parangle, d.target_x, d.target_y,
+# d.u, d.v, d.w of an HDF5 v3 data set (and of a concatenation of two) whose recorded dump timestamps are IRREGULAR,
+# under a dump selection: row j must be the documented function of the j-th SELECTED dump (d.timestamps[j]) alone.
+DS_ANT = '%s, -30:42:39.8, 21:26:38.0, 1086.6, 13.5, %d 0 0'          # what fixtures/mkv3.py writes
+DS_TOL = dict(mjd=1e-9, lst=1e-8, az=1e-7, el=1e-7, ra=1e-7, dec=1e-7, parangle=1e-7, target_x=1e-7, target_y=1e-7,
+              u=1e-6, v=1e-6, w=1e-6)
+DS_PROPS = ['mjd', 'lst', 'az', 'el', 'ra', 'dec', 'parangle', 'target_x', 'target_y', 'u', 'v', 'w']
+
+
+def ds_open(case, tmp):
+    import h5py
+    import katdal
+    from fixtures.mkv3 import mkv3
+    fns = []
+    for n, part in enumerate(case['parts']):
+        fn = os.path.join(tmp, '%d.h5' % (part['t0'] + n))
+        dt = part['dtq'] / 4.0
+        mkv3(fn, T=len(part['grid']), F=2, ants=tuple(case['ants']), t0=float(part['t0']), dt=dt,
+             acts=[(0, 'track')], targets=[(d, V_TARGETS[t]) for (d, t) in part['targets']], labels=[(0, 'track')],
+             seed=n)
+        with h5py.File(fn, 'r+') as f:      # the recorded dump timestamps: start of each dump, irregular
+            f['Data/timestamps'][:] = np.array([part['t0'] + k / 4.0 for k in part['grid']])
+        fns.append(fn)
+    return katdal.open(fns if len(fns) > 1 else fns[0], centre_freq=1284e6)
+
+
+def ds_expected(case, d, ts, targets):
+    """documented value of every public property for every dump of the (unselected) data set: one scalar katpoint call
+    per dump; ts = d.timestamps, targets = the target of each dump"""
+    import math
+
+    import katpoint
+    ants = [katpoint.Antenna(DS_ANT % (a, 10 * i)) for i, a in enumerate(case['ants'])]
+    arr = katpoint.Antenna('array, -30:42:39.8, 21:26:38.0, 1086.6, 13.5')
+    proj, csys = case['proj']
+    # the source sensors of the fixture: two samples (t0, 10 deg / 30 deg) and (t0 + dt T, 20 deg / 40 deg) per part
+    bounds = np.cumsum([0] + [len(p['grid']) for p in case['parts']])
+    deg = math.degrees
+    rows = {k: [] for k in DS_PROPS}
+    for i, t in enumerate(ts):
+        part = case['parts'][int(np.searchsorted(bounds, i, side='right')) - 1]
+        span = part['dtq'] / 4.0 * len(part['grid'])
+        lam = min(max((t - part['t0']) / span, 0.0), 1.0)
+        azr, elr = math.radians(10.0 + 10.0 * lam), math.radians(30.0 + 10.0 * lam)
+        point = katpoint.construct_azel_target(azr, elr)
+        rows['mjd'].append(katpoint.Timestamp(t).to_mjd())
+        rows['lst'].append(float(ants[0].local_sidereal_time(t)) * 12.0 / math.pi)
+        rows['az'].append([deg(azr)] * len(ants))
+        rows['el'].append([deg(elr)] * len(ants))
+        radec = [point.radec(t, a) for a in ants]
+        rows['ra'].append([deg(r[0]) for r in radec])
+        rows['dec'].append([deg(r[1]) for r in radec])
+        rows['parangle'].append([deg(point.parallactic_angle(t, a)) for a in ants])
+        xy = [targets[i].sphere_to_plane(*((azr, elr) if csys == 'azel' else (float(r[0]), float(r[1]))), t, a, proj, csys)
+              for a, r in zip(ants, radec)]
+        rows['target_x'].append([deg(p[0]) for p in xy])
+        rows['target_y'].append([deg(p[1]) for p in xy])
+        uvw = {a.name: targets[i].uvw(a, t, arr) for a in ants}
+        for n, c in enumerate('uvw'):
+            rows[c].append([float(uvw[ia[:-1]][n] - uvw[ib[:-1]][n]) for ia, ib in d.corr_products])
+    return {k: np.array(v, dtype=float) for k, v in rows.items()}
+
+
+def run_dataset(ctx, case):
+    import shutil
+
+    from fixtures.v4 import scratch_dir
+    tmp = scratch_dir('c12ds')
+    nontrivial = False
+    try:
+        with row_stack_shim():
+            d = ds_open(case, tmp)
+            d.select()
+            ts = np.array(d.timestamps)
+            total = sum(len(p['grid']) for p in case['parts'])
+            if len(ts) != total:
+                ctx.count('skipped:dataset-dropped-dumps')
+                return False
+            tsens = d.sensor.get('Observation/target')
+            targets = [tsens[i] for i in range(total)]
+            exp = ds_expected(case, d, ts, targets)
+            d.target_projection, d.target_coordsys = case['proj']
+            gcls = v_grid_class(dict(parts=[dict(grid=p['grid'], period=p['dtq']) for p in case['parts']]))
+            for step, (mask, order) in enumerate(case['reads']):
+                mask = np.array(mask, dtype=bool)
+                d.select(dumps=mask)
+                if not np.array_equal(d.timestamps, ts[mask]):
+                    ctx.disagree('kind=dataset;prop=timestamps;grid=%s;symptom=values_differ' % gcls, dict(case, failing_read=step),
+                                 d.timestamps.tolist(), ts[mask].tolist(), 'selected timestamps are not the selected dumps')
+                    return nontrivial
+                for prop in order:
+                    try:
+                        got = np.asarray(getattr(d, prop), dtype=float)
+                    except Exception as exc:
+                        if prop in 'uvw' and isinstance(exc, AttributeError):
+                            ctx.count('skipped:katpoint-uvw')
+                            continue
+                        ctx.disagree('kind=dataset;prop=%s;grid=%s;symptom=raises' % (prop, gcls),
+                                     dict(case, failing_read=step, failing_prop=prop), repr(exc), None, 'd.%s raised' % prop)
+                        return nontrivial
+                    want = exp[prop][mask]
+                    if got.shape != want.shape or not np.all(np.abs(got - want) <= DS_TOL[prop]):
+                        ctx.disagree('kind=dataset;prop=%s;grid=%s;symptom=%s' % (
+                                     prop, gcls, 'shape_differs' if got.shape != want.shape else 'values_differ'),
+                                     dict(case, failing_read=step, failing_prop=prop), got.tolist(), want.tolist(),
+                                     'd.%s under a dump selection is not the documented function of each selected dump '
+                                     '(d.timestamps[j] and the source sensors at that dump; tolerance %g)' % (prop, DS_TOL[prop]))
+                        return nontrivial
+                    ctx.count('dataset_prop=' + prop)
+                    nontrivial = nontrivial or bool(mask.any())
+            ctx.count('dataset_grid=' + gcls)
+            ctx.traces_validated += 1
+    finally:
+        shutil.rmtree(tmp, ignore_errors=True)
+    return nontrivial
+
+
+def gen_dataset(rng):
+    ants = ['m000', 'm001'] if rng.random() < 0.8 else ['m000', 'm001', 'm002']
+    case = dict(kind='dataset', ants=ants, proj=[rng.choice(['ARC', 'ARC', 'STG']), rng.choice(['azel', 'radec'])], parts=[])
+    t0 = rng.choice([1500000000, 1400000000]) + rng.randint(0, 86400 * 20)
+    dtq = rng.choice([2, 4, 8, 8, 16, 32])                   # spacing of the dumps (quarter seconds)
+    declared = dtq if rng.random() < 0.85 else rng.choice([q for q in (2, 4, 8, 16) if q != dtq])     # int_time of the file
+    for _ in range(rng.choice([1, 1, 2])):
+        grid, _ = gen_vgrid(rng, 0, p=dtq)
+        if len(grid) < 2:
+            grid.append(grid[-1] + dtq * rng.randint(1, 4))
+        while len(grid) > 1 and grid[-1] - grid[-2] != dtq and rng.random() < 0.5:
+            grid.append(grid[-1] + dtq)
+        ndump = len(grid)
+        tstarts = sorted(rng.sample(range(1, max(2, grid[-1] // dtq)), rng.choice([0, 1, 2]))) if grid[-1] // dtq > 2 else []
+        part = dict(t0=t0, dtq=declared, grid=grid,
+                    targets=[[0, rng.choice([0, 3, 5])]] + [[s, rng.choice([0, 2, 3, 4, 5])] for s in tstarts])
+        case['parts'].append(part)
+        t0 += grid[-1] // 4 + rng.randint(60, 4000)
+    total = sum(len(p['grid']) for p in case['parts'])
+    reads = []
+    for _ in range(rng.choice([1, 2])):
+        mask = [rng.random() < 0.6 for _ in range(total)]
+        order = rng.sample(DS_PROPS, rng.randint(3, len(DS_PROPS)))
+        reads.append([mask, order])
+    case['reads'] = reads
+    return case
+
+
+def scripted_dataset():
+    idx = list(range(0, 7)) + list(range(12, 18)) + list(range(20, 27))
+    grid = [8 * i for i in idx]
+    return [dict(kind='dataset', ants=['m000', 'm001'], proj=['ARC', 'azel'],
+                 parts=[dict(t0=1500000000, dtq=8, grid=grid, targets=[[0, 0], [9, 3]])],
+                 reads=[[[i % 4 != 0 for i in range(len(grid))], list(DS_PROPS)], [[True] * len(grid), ['mjd', 'lst', 'az']]])]
+
+
 # ---------------------------------------------------------------------------------------------- generators
 def gen_samples(rng, status, n=None, lo=0, hi=24):
     n = rng.choice([0, 1, 1, 2, 2, 3, 4, 5, 6, 8]) if n is None else n
@@ -1063,6 +1639,10 @@ def _fix_case(case):
 def run_case(ctx, case):
     if case.get('kind') == 'unpack':
         return run_unpack(ctx, case)
+    if case.get('kind') == 'builtin':
+        return run_builtin(ctx, json.loads(json.dumps(case, default=str)))
+    if case.get('kind') == 'dataset':
+        return run_dataset(ctx, json.loads(json.dumps(case, default=str)))
     if case.get('kind') == 'props':
         c = json.loads(json.dumps(case, default=str))
         return run_props(ctx, [dict(name=c['name'], pm=[tuple(e) for e in c['pm']], kw=c['kw'])])
@@ -1123,6 +1703,17 @@ def run(ctx):
         ctx.note_case(('wild', json.dumps([c, ops], sort_keys=True, default=str)), nontrivial=nt,
                       sample=dict(kind='wild', names=[n for (n, _) in c['raw']], keys=[k for (k, _) in c['props']]))
         ctx.count('wild')
+    for case in scripted_builtin() + [gen_builtin(rng) for _ in range(ctx.scale(400, 8000))]:
+        nt = run_builtin(ctx, case)
+        ctx.note_case(('builtin', json.dumps(case, sort_keys=True, default=str)), nontrivial=nt,
+                      sample=dict(kind='builtin', fmt=case['fmt'], grid=v_grid_class(case),
+                                  parts=[p['grid'] for p in case['parts']], ops=[o[:2] for o in case['ops']][:4]))
+        ctx.count('builtin')
+    for case in scripted_dataset() + [gen_dataset(rng) for _ in range(ctx.scale(120, 2400))]:
+        nt = run_dataset(ctx, case)
+        ctx.note_case(('dataset', json.dumps(case, sort_keys=True, default=str)), nontrivial=nt,
+                      sample=dict(kind='dataset', parts=[p['grid'] for p in case['parts']], proj=case['proj']))
+        ctx.count('dataset')
     for _ in range(ctx.scale(1300, 26000)):
         c = gen_cache(rng)
         ops = gen_ops(rng, c)
@@ -1169,6 +1760,6 @@ def replay(ctx, doc):
     import logging
     logging.getLogger('katdal').setLevel(logging.ERROR)
     case = doc.get('case') or doc.get('witness') or {}
-    if case.get('kind') in ('single', 'wild', 'concat', 'primitive', 'unpack', 'props'):
+    if case.get('kind') in ('single', 'wild', 'concat', 'primitive', 'unpack', 'props', 'builtin', 'dataset'):
         run_case(ctx, case)
         ctx.note_case(('replay', json.dumps(case, sort_keys=True, default=str)))
